@@ -14,7 +14,7 @@ from bfsa.symexec import Exec
 from bfsa.terms import C, NONE, Term, cval, is_const, mk, show, subterms
 
 from rules import adapter, bf3
-from rules.bf3 import BF3, _flag_frame, _self_attr
+from rules.bf3 import BF3, _flag_frame, _flag_known, _self_attr
 from rules import stackrt
 
 LEVEL = "other"
@@ -77,7 +77,7 @@ def encrypt_on_write(prog, chk, pid):
     res = ex.run(fi)
     where = "%s:%d" % (fi.file, fi.lineno)
     rets = [e for e in res.events if e.kind == "return" and e.stack == (fi.qualname,)]
-    enc_rets = [r for r in rets if not any(f[0] == "if" and _flag_frame(f) is False for f in r.ctx)]
+    enc_rets = [r for r in rets if _flag_known(r) is not False]
     ok, why = bool(enc_rets), "no return on the encrypt_by_session_key arm"
     for r in enc_rets:
         v = unsnap(r.d["value"])
@@ -91,7 +91,7 @@ def encrypt_on_write(prog, chk, pid):
         if not good:
             ok, why = False, "on the encryption arm the returned value is %s, documented create_AES128(session_key).encrypt(pad(self.blob))" % show(v, 5)
         # must be under the flag (truthy) -- i.e. never returned for unflagged components is fine, but flagged ones never take the plain return
-    plain = [r for r in rets if any(f[0] == "if" and _flag_frame(f) is False for f in r.ctx)]
+    plain = [r for r in rets if _flag_known(r) is False]
     for r in rets:
         if r not in plain and r not in enc_rets:
             ok, why = False, "a return is not conditioned on the encryption flag"
@@ -153,7 +153,7 @@ def no_plaintext_fallback(prog, chk, pid):
     ex = Exec(prog, policy=lambda e, f, d: f.module.name.startswith("bec2format") and d < 8, registered=False)
     res = ex.run(fi)
     rets = [e for e in res.events if e.kind == "return" and e.stack == (fi.qualname,)]
-    enc = [r for r in rets if not any(f[0] == "if" and _flag_frame(f) is False for f in r.ctx)]
+    enc = [r for r in rets if _flag_known(r) is not False]
     raises = [e for e in res.events if e.kind == "raise" and "NotImplementedError" in str(e.d.get("exc"))]
     chk.require(not enc and bool(raises), P("unregistered-write-fails"), fi.qualname, "unregistered crypto: encryption arm only raises NotImplementedError", "%s:%d" % (fi.file, fi.lineno),
                 "with no cipher registered, writing a flagged component has no normal path (it raises NotImplementedError)", "with no cipher registered the encryption arm can still return bytes")
@@ -224,9 +224,20 @@ def secrecy_taint(prog, chk, pid):
     bad = None
     for e in res.events:
         if e.kind == "setitem" and _self_attr(unsnap(e.d["base"]), "comments"):
-            v = unsnap(e.d["value"])
-            okv = is_const(v) or (v.op == "call" and isinstance(v.args[0], Term) and v.args[0].op == "builtin" and v.args[0].args[0] == "str" and is_call_named(unsnap(v.args[1][0]), "create_from_prj_settings", "create_from_dev_settings"))
-            if not okv:
+            def clean(v):
+                """the stored text is a constant, str(<identifier object>) or a choice between such values (what is chosen may depend on the configuration, the text may not)"""
+                v = unsnap(v)
+                if is_const(v):
+                    return True
+                if v.op == "phi":
+                    return clean(v.args[1]) and clean(v.args[2])
+                if v.op == "call" and isinstance(v.args[0], Term) and v.args[0].op == "builtin" and v.args[0].args[0] == "str" and len(v.args[1]) == 1:
+                    inner = unsnap(v.args[1][0])
+                    alts = [inner] if inner.op != "phi" else [unsnap(inner.args[1]), unsnap(inner.args[2])]
+                    return all(is_const(x) or is_call_named(x, "create_from_prj_settings", "create_from_dev_settings") for x in alts)
+                return False
+
+            if not clean(e.d["value"]):
                 bad = e
     chk.require(bad is None, P("no-secret-in-comments"), fi.qualname, "comments[...] = str(ConfigId) | constant", bad.where if bad else "%s:%d" % (fi.file, fi.lineno),
                 "configuration-derived comments are identifier strings or constants, never raw configuration values", "a comment is derived from raw configuration content (%s)" % (show(bad.d["value"], 4) if bad else ""))
